@@ -305,6 +305,13 @@ NextRunning ==
   \/ \E j \in jobs, ok \in BOOLEAN : InDone(j, ok)
 Next == Running /\ NextRunning
 Spec == Init /\ [][Next]_vars
+\* A scheduling policy of the same system, "fast disk": a page-out job runs to its end before the server handles the next request
+\* (in the real store the disk thread can even finish a job while the server thread is still launching the other jobs of the
+\* batch; the replay runs the job synchronously inside the submit for these behaviours, see harness/drive/shm.py)
+FastDiskNext == IF \E j \in jobs : j.kind \in {"out", "outfail"}
+                THEN Running /\ ((\E j \in jobs : OutHalf1(j, TRUE)) \/ (\E j \in jobs : OutHalf2(j)))
+                ELSE Next
+FastDiskSpec == Init /\ [][FastDiskNext]_vars
 FairSpec == Spec /\ WF_vars(\E j \in jobs : OutHalf1(j, TRUE)) /\ WF_vars(\E j \in jobs : OutHalf2(j))
                  /\ WF_vars(\E j \in jobs : InDone(j, TRUE))
 
